@@ -321,8 +321,8 @@ def run_case(rec, inp):
             o = observe(cl, cosmo, za)
             kw_like = dict(kwargs_cosmo_interp={**tab, **tab_extra}) if mode == "tabulated" else {}
             a_like = list(args)
-            if mode.startswith("fixed"):
-                a_like[0] = inp["wrong_h0"]
+            if mode.startswith("fixed") or mode == "tabulated":
+                a_like[0] = inp["wrong_h0"]   # the fixed object / the user's table decide, not the sampled h0
             lnl = fscalar(cl.likelihood(a_like, **kw_like))
             if mode.startswith("fixed"):
                 # second request with other sampled values: same object / same values (cache built once)
